@@ -19,5 +19,7 @@ VerbsCore      == {"Status", "MetricDetailBad", "AddCluster", "AddClusterBadHc",
                    "AddBackend", "RemoveBackend", "AddHFront", "RemoveHFront", "AddTFront", "RemoveTFront",
                    "AddListener", "RemoveListener", "Activate", "Deactivate", "UpdateListener",
                    "ReturnSockets", "SoftStop", "HardStop"}
+VerbsRelisten  == {"AddHFront", "AddBackend", "RemoveBackend", "RemoveListener", "AddListener", "Activate", "Deactivate"}
+HaPreamble == <<[k |-> "AddListener", a |-> "hA"], [k |-> "Activate", a |-> "hA"]>>
 AfterStopKinds == {"SoftStop", "Status"}
 =============================================================================
